@@ -823,6 +823,85 @@ theorem time_with_field_off59_counterexample :
     TStrict ⟨86399, 1500000000⟩ ∧ (⟨86399, 1500000000⟩ : Time).with_second 30 = some ⟨86370, 1500000000⟩ ∧
     Time.from_hms_nano_opt 23 59 30 1500000000 = none ∧ ¬ TStrict ⟨86370, 1500000000⟩ := by decide
 
+/-! ### `NaiveDateTime` time-field replacement in one statement; the `as u32` cast of `years_since`;
+one month away is `Month::succ` / `Month::pred` -/
+
+/-- `NaiveDateTime::with_hour / with_minute / with_second / with_nanosecond`, every date part (no
+hypothesis on it), every well-formed time of day, every `u32` (non-negative) argument: no panic; `None`
+exactly when hour ≥ 24 / minute ≥ 60 / second ≥ 60 / nanosecond ≥ 2·10⁹; otherwise the date is kept and
+the time shows the new value in the named field and the old values in the other three -/
+theorem naive_datetime_time_fields_spec (dt : NaiveDT) (ht : TValid dt.time) (v : Int) (hv : 0 ≤ v) :
+    (∃ r, dt.with_hour v = .ok r ∧ (r = none ↔ 24 ≤ v) ∧ ∀ x, r = some x → x.date = dt.date ∧
+      HasFields x.time v dt.time.minute dt.time.second dt.time.nanosecond) ∧
+    (∃ r, dt.with_minute v = .ok r ∧ (r = none ↔ 60 ≤ v) ∧ ∀ x, r = some x → x.date = dt.date ∧
+      HasFields x.time dt.time.hour v dt.time.second dt.time.nanosecond) ∧
+    (∃ r, dt.with_second v = .ok r ∧ (r = none ↔ 60 ≤ v) ∧ ∀ x, r = some x → x.date = dt.date ∧
+      HasFields x.time dt.time.hour dt.time.minute v dt.time.nanosecond) ∧
+    (∃ r, dt.with_nanosecond v = .ok r ∧ (r = none ↔ 2000000000 ≤ v) ∧ ∀ x, r = some x → x.date = dt.date ∧
+      HasFields x.time dt.time.hour dt.time.minute dt.time.second v) := by
+  obtain ⟨⟨a1, a2⟩, ⟨b1, b2⟩, ⟨c1, c2⟩, ⟨d1, d2⟩⟩ := time_with_field_spec dt.time v ht hv
+  have key : ∀ (o : Option Time) (P : Time → Prop), (∀ t', o = some t' → P t') →
+      ∀ x, (o.map fun t => (⟨dt.date, t⟩ : NaiveDT)) = some x → x.date = dt.date ∧ P x.time := by
+    intro o P hP x hx
+    cases o with
+    | none => cases hx
+    | some t => cases hx; exact ⟨rfl, hP t rfl⟩
+  have hn : ∀ (o : Option Time), (o.map fun t => (⟨dt.date, t⟩ : NaiveDT)) = none ↔ o = none := by
+    intro o; cases o with
+    | none => exact ⟨fun _ => rfl, fun _ => rfl⟩
+    | some t => exact ⟨fun h => (by cases h), fun h => (by cases h)⟩
+  refine ⟨⟨_, rfl, (hn _).trans a1, key _ _ a2⟩, ⟨_, rfl, (hn _).trans b1, key _ _ b2⟩,
+    ⟨_, rfl, (hn _).trans c1, key _ _ c2⟩, ⟨_, rfl, (hn _).trans d1, key _ _ d2⟩⟩
+
+/-- the count `years_since` returns fits `u32` (indeed `0 ≤ k ≤ MAX_YEAR − MIN_YEAR`), so the final
+`as u32` cast — not modelled, `r : Option Int` — is the identity -/
+theorem years_since_fits_u32 (y1 y0 : Int) (o1 o0 : Nat) (hy1 : MIN_YEAR ≤ y1 ∧ y1 ≤ MAX_YEAR)
+    (hy0 : MIN_YEAR ≤ y0 ∧ y0 ≤ MAX_YEAR) (ho1 : 1 ≤ o1 ∧ o1 ≤ yearLen y1) (ho0 : 1 ≤ o0 ∧ o0 ≤ yearLen y0) :
+    ∀ k, (dateOfYo y1 o1).years_since (dateOfYo y0 o0) = .ok (some k) →
+      0 ≤ k ∧ k ≤ 524285 ∧ asU32 k = k := by
+  intro k hk
+  obtain ⟨r, h1, h2, _⟩ := years_since_spec y1 y0 o1 o0 hy1 hy0 ho1 ho0
+  rw [h1] at hk
+  injection hk with hk
+  have hw := (h2 k).mp hk
+  have hMIN : MIN_YEAR = -262143 := rfl
+  have hMAX : MAX_YEAR = 262142 := rfl
+  unfold WholeYears ymdLe ymdLt at hw
+  have hb : 0 ≤ k ∧ k ≤ 524285 := by omega
+  exact ⟨hb.1, hb.2, asU32_id (by omega) (by omega)⟩
+
+/-- stepping by one month lands in `Month::succ` (December → January of the next year), by minus one in
+`Month::pred` (January → December of the year before); `Month::February.num_days` is 29 exactly in the
+leap years of the Gregorian rule, for every year of the range -/
+theorem month_step_succ_pred (y : Int) (mo : Month) :
+    stepMonth y (mo.toNat + 1) 1 = mo.succ.toNat + 1 ∧
+    stepMonth y (mo.toNat + 1) (-1) = mo.pred.toNat + 1 ∧
+    stepYear y (mo.toNat + 1) 1 = (if mo = .dec then y + 1 else y) ∧
+    stepYear y (mo.toNat + 1) (-1) = (if mo = .jan then y - 1 else y) ∧
+    (MIN_YEAR ≤ y ∧ y ≤ MAX_YEAR →
+      Month.feb.num_days y = .ok (some (if y % 4 = 0 ∧ (y % 100 ≠ 0 ∨ y % 400 = 0) then 29 else 28))) := by
+  refine ⟨?_, ?_, ?_, ?_, ?_⟩
+  · cases mo <;> (unfold stepMonth monthIndex; simp only [Month.toNat, Month.succ]; omega)
+  · cases mo <;> (unfold stepMonth monthIndex; simp only [Month.toNat, Month.pred]; omega)
+  · cases mo <;> (unfold stepYear monthIndex; simp only [Month.toNat]; first | (rw [if_neg (by decide)]; omega) | (rw [if_pos trivial]; omega))
+  · cases mo <;> (unfold stepYear monthIndex; simp only [Month.toNat]; first | (rw [if_neg (by decide)]; omega) | (rw [if_pos trivial]; omega))
+  · intro hy
+    have h := month_num_days_spec .feb y
+    rw [h, if_neg (by intro hc; omega)]
+    refine congrArg (fun x => Res.ok (some x)) ?_
+    unfold monthLen isLeap
+    simp only [Month.toNat]
+    by_cases c : y % 4 = 0 ∧ (y % 100 ≠ 0 ∨ y % 400 = 0)
+    · rw [if_pos c]
+      have : (y % 4 == 0 && (y % 100 != 0 || y % 400 == 0)) = true := by
+        simp only [Bool.and_eq_true, Bool.or_eq_true, beq_iff_eq, bne_iff_ne, ne_eq]; exact c
+      rw [this]; rfl
+    · rw [if_neg c]
+      have : (y % 4 == 0 && (y % 100 != 0 || y % 400 == 0)) = false := by
+        apply Bool.eq_false_iff.mpr
+        simp only [Bool.and_eq_true, Bool.or_eq_true, beq_iff_eq, bne_iff_ne, ne_eq]; exact c
+      rw [this]; rfl
+
 /-! ### non-vacuity: the hypotheses are met, and the interesting branches are reached -/
 
 /-- Jan 31 + 1 month clamps to Feb 29 in a leap year and Feb 28 otherwise; December rolls the year;
@@ -988,5 +1067,14 @@ example :
     (⟨86399, 0⟩ : Time).with_nanosecond 1999999999 = ctorTime 23 59 59 1999999999 ∧
     (⟨7, 5⟩ : Time).with_second 60 = ctorTime 0 0 60 5 ∧ ctorTime 0 0 60 5 = none ∧
     ctorTime 0 0 7 1500000000 = none := by decide
+
+/-- `NaiveDateTime` time fields, the bound of `years_since`, one month away -/
+example :
+    TValid (⟨dateOfYo 2024 60, ⟨86399, 1500000000⟩⟩ : NaiveDT).time ∧
+    NaiveDT.with_second ⟨dateOfYo 2024 60, ⟨86399, 1500000000⟩⟩ 60 = .ok none ∧
+    NaiveDT.with_nanosecond ⟨dateOfYo 2024 60, ⟨7, 0⟩⟩ 1999999999 = .ok (some ⟨dateOfYo 2024 60, ⟨7, 1999999999⟩⟩) ∧
+    Date.MAX.years_since Date.MIN = .ok (some 524285) ∧
+    stepMonth 2024 12 1 = 1 ∧ stepYear 2024 12 1 = 2025 ∧ stepMonth 2024 1 (-1) = 12 ∧ stepYear 2024 1 (-1) = 2023 ∧
+    Month.feb.num_days 1900 = .ok (some 28) ∧ Month.feb.num_days 2000 = .ok (some 29) := by decide +kernel
 
 end Chrono.Props.C08
